@@ -71,7 +71,13 @@ type c18Struct struct{ A int }
 
 // recorded ObjectEncoder tag expected for a slog kind (only used to print the tables in the evidence; the
 // oracle compares typed kinds exactly and any-kinds by text)
-var c18Kinds = []string{"bool", "dur", "f64", "i64", "str", "time", "u64", "any:strs", "any:struct", "any:err"}
+var c18Kinds = []string{"bool", "dur", "f64", "i64", "str", "time", "u64", "any:strs", "any:struct", "any:err", "any:lvpanic"}
+
+// c18PanicLV is a LogValuer whose LogValue panics: slog's Value.Resolve contains the panic and yields an error value whose
+// text starts with "LogValue panicked" (followed by a stack, cut off by the recording encoder)
+type c18PanicLV struct{}
+
+func (c18PanicLV) LogValue() slog.Value { panic("boom") }
 
 func c18LeafValue(ty, v string) slog.Value {
 	switch ty {
@@ -107,6 +113,8 @@ func c18LeafValue(ty, v string) slog.Value {
 		return slog.AnyValue(c18Struct{n})
 	case "any:err":
 		return slog.AnyValue(errors.New(v))
+	case "any:lvpanic":
+		return slog.AnyValue(c18PanicLV{})
 	}
 	panic("unknown leaf kind " + ty)
 }
@@ -390,6 +398,8 @@ func c18GenLeaf(r *Rand) c18Attr {
 		a.V = Pick(r, []string{"{7}", "{0}", "{-3}"})
 	case "any:err":
 		a.V = Pick(r, []string{"boom", "e"})
+	case "any:lvpanic":
+		a.V = "LogValue panicked"
 	}
 	if r.Chance(1, 6) {
 		a.LV = 1 + r.Intn(2)
